@@ -78,6 +78,9 @@ type Ctl struct {
 	onEvent func(e *Event)
 	// onPark is invoked for every new park.
 	onPark func(p *Park)
+	// atAbort: called (each in its own goroutine) when the world is unwound, e.g. to stop a polling
+	// loop that would otherwise keep the bubble alive for ever.
+	atAbort []func()
 }
 
 func NewCtl(ch *Choices) *Ctl {
@@ -288,6 +291,9 @@ func (c *Ctl) ParkedOf(kinds ...string) []*Park {
 // pass through; used to unwind the world at the end of a run.
 func (c *Ctl) Abort() {
 	atomic.StoreInt32(&c.aborting, 1)
+	for _, f := range c.atAbort {
+		go f()
+	}
 	for round := 0; round < 200; round++ {
 		for _, p := range c.Parked {
 			p.resume <- Action{Kind: "abort"}
